@@ -30,11 +30,11 @@ def run(ctx):
             res.check(o.ok, "C08-R2", o.key, o.loc, o.detail)
     E.rule_type_change_rebuilds_template(res, "C08-R3", m)
     E.rule_type_change_opens_frame(res, "C08-R3", m)
-    n4 = E.rule_fit_decided_on_fresh_frame(res, "C08-R4", m)
+    n4 = E.rule_fit_decided_on_fresh_frame(res, "C08-R4", m, placement=True)
     E.rule_batch_order(res, "C08-R5", m)
     E.rule_header_fully_stamped(res, "C08-R6", m)
     E.rule_state_reset(res, "C08-R7", "C08-R7", m)
-    E.rule_writes_inside_frame(res, "C08-R7", m)
+    E.rule_writes_inside_frame(res, "C08-R7", m, placement=True)
     res.floor("C08-R7", 20)
     res.floor("C08-R1", 4)
     res.floor("C08-R2", 12)
